@@ -89,7 +89,10 @@ PARENTS = [i for i, (n, _) in enumerate(CLASS_SPECS) if n in (
     "ArticulationDirection", "DynamicTempoDirection")]
 
 
-def _cls(i):
+def _cls(i, palette=None):
+    # with a palette (a few class indices per history) many objects share a class and a (time point, class) bucket
+    if palette:
+        i = palette[i % len(palette)]
     name, mk = CLASS_SPECS[i % NCLS]
     return getattr(S, name), mk
 
@@ -112,10 +115,13 @@ def strat(tier):
     t = st.one_of(t_small, t_small.map(lambda x: x), t_small.map(lambda x: x), st.integers(0, 10 ** 6))
     ci = st.one_of(st.integers(0, NCLS - 1), st.sampled_from(PARENTS))
     ref = st.integers(0, 1000)
+    # class of a query: as above, or the class (k=0) / the k-th timed ancestor of an object that is on the timeline
+    # (independent draws mostly ask for classes that have no instance at all)
+    qci = st.one_of(ci, st.tuples(st.just("o"), ref, st.sampled_from([0, 0, 1, 2, 3])))
     q = st.integers(1, 12)
     # a time relative to an existing time point (first/last/interior, also the far ones): ["p", ref, delta]
     t_rel = st.tuples(st.just("p"), ref, st.sampled_from([-1, 0, 0, 1]))
-    opt_t = st.one_of(st.none(), t_small, st.integers(0, 30), t_rel)
+    opt_t = st.one_of(st.none(), t_small, st.integers(0, 30), t_rel, t_rel.map(lambda x: x))
     # type of the time arguments: python int / numpy.int64 / numpy.int32 (note_array_to_score passes array scalars)
     tt = st.sampled_from([0, 0, 0, 1, 2])
     add = st.tuples(st.just("add"), ci, t, st.integers(0, 12), st.sampled_from(["both", "both", "both", "start", "end"]), tt)
@@ -129,23 +135,38 @@ def strat(tier):
     none_w = 10 if tier == "quick" else 15  # cls=None visits every class of the interpreter: slow, kept rare
     iter_all = st.tuples(
         st.just("iter_all"),
-        st.tuples(st.integers(0, none_w), ci).map(lambda x: None if x[0] == 7 else x[1]),
+        st.tuples(st.integers(0, none_w), qci).map(lambda x: None if x[0] == 7 else x[1]),
         opt_t,
         opt_t,
         st.booleans(),
         st.sampled_from(["starting", "ending"]),
-        st.sampled_from([False, True, 2]),  # bounds as numbers / fresh TimePoints / the part's own TimePoints
+        st.sampled_from([False, True, 2, 2]),  # bounds as numbers / fresh TimePoints / the part's own TimePoints
     )
-    iter_nb = st.tuples(st.sampled_from(["iter_prev", "iter_next"]), ref, ci, st.booleans(), st.booleans())
+    # the callers' idiom iter_all(cls, x.start, y.end) with the TimePoint objects of registered objects
+    iter_span = st.tuples(st.just("iter_span"), ref, ref, qci, st.booleans(), st.sampled_from(["starting", "ending"]))
+    iter_nb = st.tuples(st.sampled_from(["iter_prev", "iter_next"]), ref, qci, st.booleans(), st.booleans())
     getp = st.tuples(st.just("get_point"), st.one_of(t_small, t_rel, st.integers(0, 10 ** 6)))
     qd = st.tuples(st.just("qdur"), opt_t, opt_t)
     setq_entry = st.tuples(st.just("setq_entry"), ref, st.sampled_from(["prev", "prev", "same", "new"]), q)
     op = _weighted((add, 3), (add_nothing, 1), (readd, 2), (complete, 1), (remove, 4), (remove_dead, 1), (setq, 2), (setq_entry, 1),
-                   (point, 1), (iter_all, 2), (iter_nb, 1), (getp, 1), (qd, 1))
+                   (point, 1), (iter_all, 3), (iter_span, 2), (iter_nb, 2), (getp, 1), (qd, 1))
     # a few additions first so that removals and queries have something to act on
     body = st.one_of(st.lists(op, min_size=1, max_size=8), st.lists(op, min_size=8, max_size=maxlen))
-    ops = st.tuples(st.lists(add, min_size=0, max_size=5), body).map(lambda ab: list(ab[0]) + list(ab[1]))
-    return st.fixed_dictionaries({"q0": st.integers(1, 4), "ops": ops})
+    # (sometimes many, so that crowded timelines with 20 and more time points occur)
+    prefix = _weighted((st.lists(add, min_size=0, max_size=5), 3), (st.lists(add, min_size=10, max_size=18), 1))
+    ops = st.tuples(prefix, body).map(lambda ab: list(ab[0]) + list(ab[1]))
+    palette = _weighted((st.none(), 1), (st.lists(ci, min_size=1, max_size=4), 2))
+    return st.fixed_dictionaries({"q0": st.integers(1, 4), "ops": ops, "palette": palette})
+
+
+def _qcls(model, ci, palette=None):
+    """Class of a query: index into CLASS_SPECS or ["o", ref, k] = k-th timed class in the MRO of a registered object."""
+    if isinstance(ci, (list, tuple)):
+        if not model.objs:
+            return S.TimedObject
+        mro = [c for c in type(model.objs[ci[1] % len(model.objs)][0]).__mro__ if issubclass(c, S.TimedObject)]
+        return mro[min(ci[2], len(mro) - 1)]
+    return _cls(ci, palette)[0]
 
 
 def _tt(t, kind):
@@ -336,6 +357,9 @@ def oracle(spec):
     o = Outcome()
     part = S.Part("P1", quarter_duration=spec["q0"])
     model = Model(spec["q0"])
+    max_points = 0
+    pal = spec.get("palette")
+    o.cls("history-with-class-palette", bool(pal))
     emptied = False
     after_emptied = False
     for step, op in enumerate(spec["ops"]):
@@ -346,7 +370,7 @@ def oracle(spec):
             if kind in ("add", "readd"):
                 if kind == "add":
                     _, ci, s, dur, how = op[:5]
-                    cls, mk = _cls(ci)
+                    cls, mk = _cls(ci, pal)
                     ob = mk(cls)
                     o.cls("class-RomanNumeral", cls is S.RomanNumeral)
                 else:
@@ -369,6 +393,8 @@ def oracle(spec):
                     for t in (ss, ee):
                         if t is not None:
                             model.points.add(t)
+                o.cls("add-into-bucket-that-already-holds-an-object-of-that-class",
+                      any(type(r[0]) is type(ob) and r[0] is not ob and ((ss is not None and r[1] == ss) or (ee is not None and r[2] == ee)) for r in model.objs))
                 call(part.add, ob, _tt(ss, tkind), _tt(ee, tkind))
                 o.cls("add-equal-start-end", ss is not None and ss == ee)
                 o.cls("add-half-registered", how in ("start", "end"))
@@ -469,9 +495,9 @@ def oracle(spec):
                 o.cls("explicit-empty-point", not model.regs_at(t))
             elif kind == "iter_all":
                 _, ci, start, end, incl, mode, as_tp = op
-                cls = None if ci is None else _cls(ci)[0]
+                cls = None if ci is None else _qcls(model, ci, pal)
                 o.cls("query-cls-none", cls is None)
-                o.cls("query-include-subclasses-on-parent", incl and ci is not None and (ci % NCLS) in PARENTS)
+                o.cls("query-include-subclasses-on-parent", incl and cls is not None and bool(cls.__subclasses__()))
                 start, end = _rt(model, start), _rt(model, end)
                 o.cls("query-bound-on-first-or-last-point", bool(model.points) and any(x in (min(model.points), max(model.points)) for x in (start, end)))
                 o.cls("query-start-after-end", start is not None and end is not None and start > end)
@@ -489,10 +515,33 @@ def oracle(spec):
                     return S.TimePoint(x)
 
                 a, b = bound(start), bound(end)
+                for nm, x, y in (("start", start, a), ("end", end, b)):
+                    if isinstance(y, S.TimePoint) and as_tp == 2 and (y.prev is not None or y.next is not None):
+                        o.cls("query-%s-is-own-timepoint-that-lists-a-matching-object" % nm, bool(_expected_query(model, cls, x, x + 1, incl, mode)))
                 got = call(lambda: list(part.iter_all(cls, a, b, include_subclasses=incl, mode=mode)))
                 exp = _expected_query(model, cls, start, end, incl, mode)
+                o.cls("iter-all-expected-result-nonempty", bool(exp))
+                o.cls("iter-all-expected-result-nonempty-with-bound", bool(exp) and (start is not None or end is not None))
                 tof = (lambda g: g.start.t if g.start is not None else -1) if mode == "starting" else (lambda g: g.end.t if g.end is not None else -1)
                 _compare_sequence(o, "iter-all", got, exp, tof, where=where, mode=mode, incl=incl, cls=None if cls is None else cls.__name__, start=start, end=end)
+            elif kind == "iter_span":
+                _, r1, r2, ci, incl, mode = op
+                if not model.objs:
+                    continue
+                ob1 = model.objs[r1 % len(model.objs)][0]
+                ob2 = model.objs[r2 % len(model.objs)][0]
+                a = ob1.start if ob1.start is not None else ob1.end
+                b = ob2.end if ob2.end is not None else ob2.start
+                if a.t > b.t and (r1 + r2) % 4:
+                    a, b = b, a
+                cls = _qcls(model, ci, pal)
+                got = call(lambda: list(part.iter_all(cls, a, b, include_subclasses=incl, mode=mode)))
+                exp = _expected_query(model, cls, a.t, b.t, incl, mode)
+                o.cls("iter-span-between-own-timepoints")
+                o.cls("iter-span-expected-result-nonempty", bool(exp))
+                o.cls("iter-span-end-point-lists-a-matching-object", a.t <= b.t and bool(_expected_query(model, cls, b.t, b.t + 1, incl, mode)))
+                tof = (lambda g: g.start.t if g.start is not None else -1) if mode == "starting" else (lambda g: g.end.t if g.end is not None else -1)
+                _compare_sequence(o, "iter-all", got, exp, tof, where=where, mode=mode, incl=incl, cls=cls.__name__, start=a.t, end=b.t)
             elif kind in ("iter_prev", "iter_next"):
                 _, ref, ci, eq, incl = op
                 pts = sorted(model.points)
@@ -503,7 +552,7 @@ def oracle(spec):
                 if tp is None:
                     o.add("get-point-missed-existing-point", t=t0, where=where)
                     continue
-                cls = _cls(ci)[0]
+                cls = _qcls(model, ci, pal)
                 fn = tp.iter_prev if kind == "iter_prev" else tp.iter_next
                 got = call(lambda: list(fn(cls, eq=eq, include_subclasses=incl)))
                 if kind == "iter_prev":
@@ -511,6 +560,8 @@ def oracle(spec):
                 else:
                     lo, hi = (t0 if eq else t0 + 1), None
                 exp = _expected_query(model, cls, lo, hi, incl, "starting")
+                o.cls("iter-prev-next-expected-result-nonempty", bool(exp))
+                o.cls("iter-prev-next-eq-with-object-at-the-point", eq and any(t_ == t0 for t_, _ in exp))
                 _compare_sequence(o, kind.replace("_", "-"), got, exp, lambda g: g.start.t if g.start is not None else -1,
                                   decreasing=(kind == "iter_prev"), where=where, eq=eq, incl=incl, cls=cls.__name__, at=t0)
             elif kind == "get_point":
@@ -537,8 +588,10 @@ def oracle(spec):
         if emptied and not after_emptied and kind != "remove":
             after_emptied = True
         check_invariants(part, model, o, where)
+        max_points = max(max_points, len(model.points))
         if o.discs:
             break
+    o.cls("timeline-reaches-20-or-more-points", max_points >= 20)
     o.nontrivial = emptied and after_emptied
     o.cls("history-longer-than-12-operations", len(spec["ops"]) > 12)
     o.cls("history-with-emptied-point-then-more", o.nontrivial)
@@ -554,6 +607,6 @@ SUBCHECKS = [
         rule="generated histories of add (by start, end, both, neither; python and numpy integer times)/complete/remove/re-add of removed objects/set_quarter_duration/get_or_add_point/queries (bounds as numbers, fresh or the part's own TimePoints) over 56 timed-object classes, invariant after every step; non-trivial = a removal empties a time point and a later query or edit follows",
         floors={"history-with-emptied-point-then-more": 0.05, "query-include-subclasses-on-parent": 0.03, "setq-at-existing-entry": 0.03,
                 "re-add-of-removed-object": 0.05, "add-times-numpy-int32": 0.05, "add-times-numpy-int64": 0.05, "query-cls-none": 0.01,
-                "query-bound-is-own-timepoint": 0.03, "history-longer-than-12-operations": 0.2, "add-with-neither-start-nor-end": 0.03},
+                "query-bound-is-own-timepoint": 0.03, "add-into-bucket-that-already-holds-an-object-of-that-class": 0.1, "iter-span-end-point-lists-a-matching-object": 0.03, "query-end-is-own-timepoint-that-lists-a-matching-object": 0.01, "query-start-is-own-timepoint-that-lists-a-matching-object": 0.01, "iter-all-expected-result-nonempty-with-bound": 0.05, "iter-prev-next-eq-with-object-at-the-point": 0.03, "history-longer-than-12-operations": 0.2, "timeline-reaches-20-or-more-points": 0.05, "add-with-neither-start-nor-end": 0.03},
     ),
 ]
